@@ -177,8 +177,17 @@ def fn_limit_text(n, f):
     return call if d == 0 else ('%s+%d' % (call, d) if d > 0 else '%s-%d' % (call, -d))
 
 
+def creal_text(n, salt=0):
+    """the integer n computed in the complex numbers with an exactly vanishing imaginary part (complex-typed value)"""
+    forms = ['i^2%+d' % (n + 1) if n != -1 else 'i^2', '%d+0*i' % n, '(1+i)*(1-i)%+d' % (n - 2) if n != 2 else '(1+i)*(1-i)',
+             '%d*i/i' % n, '%d-j^2' % (n - 1), '%d+i-i' % n]
+    return forms[salt % len(forms)]
+
+
 def limit_text(l):
     k, n = l['k'], l['n']
+    if k == 'creal':
+        return creal_text(n, l.get('salt', n))
     if k == 'fn':
         return fn_limit_text(n, l['f'])
     if k == 'qbelow':
@@ -251,6 +260,8 @@ def grader_kwargs(aut, cfg, pos, stu=None):
         kw['required_functions'] = sorted(cfg['required'])
     if cfg.get('userfuncs'):
         kw['user_funcs'] = sorted(cfg['userfuncs'])
+    if cfg.get('debug'):
+        kw['debug'] = True
     return kw, scripts
 
 
@@ -315,6 +326,9 @@ def finding_class(aut, allowed, observed, stu=None):
     if sorted(allowed) == ['config_err'] and observed == 'student_err' and \
             (a['lower'].strip() == '' or a['upper'].strip() == ''):
         return 'author-blank-limit-reported-as-student-error'
+    kinds = [l['k'] for s in (aut, stu or aut) for l in (s['lower'], s['upper'])]
+    if 'creal' in kinds and observed not in allowed:
+        return 'complex-typed-real-limit-not-reported-as-the-statement-requires'
     if observed.startswith('other:'):
         return 'unclassified-outcome'
     if observed in ('correct', 'incorrect') and 'q' in [l['k'][0] for s in (aut, stu or aut) for l in (s['lower'], s['upper'])]:
@@ -334,7 +348,7 @@ def make_signature(aut, stu, cfg, pos, allowed, observed, detail, kw, scripts, i
             'variables': kw['variables'], 'instructor_vars': kw['instructor_vars'], 'samples': kw['samples'],
             'tolerance': kw.get('tolerance', 'default'), 'user_fact': kw.get('user_fact', False), 'scripts': scripts,
             'blacklist': kw.get('blacklist'), 'whitelist': kw.get('whitelist'), 'required_functions': kw.get('required_functions'),
-            'user_funcs': kw.get('user_funcs'), 'allowed': sorted(allowed),
+            'user_funcs': kw.get('user_funcs'), 'debug': kw.get('debug', False), 'allowed': sorted(allowed),
             'observed': observed, 'detail': detail, 'class': finding_class(aut, allowed, observed, stu)}
 
 
@@ -343,10 +357,10 @@ DRIFT_EXPECT = {'blank_lower': 'MissingInput', 'blank_upper': 'MissingInput', 'b
                 'blank_var': 'MissingInput', 'var_pi': 'InvalidInput', 'var_i': 'InvalidInput', 'var_sin': 'InvalidInput',
                 'var_x': 'SummationError', 'half_lower': 'SummationError', 'half_upper': 'SummationError',
                 'cplx_lower': 'SummationError', 'cplx_upper': 'SummationError', 'uses_c': 'UndefinedVariable',
-                'plusc_lower': 'UndefinedVariable'}
+                'plusc_lower': 'UndefinedVariable', 'creal_lower': 'SummationError', 'creal_upper': 'SummationError'}
 FAULT_FIELD = {'blank_lower': 'lower', 'half_lower': 'lower', 'cplx_lower': 'lower', 'plusc_lower': 'lower',
                'blank_upper': 'upper', 'half_upper': 'upper', 'cplx_upper': 'upper', 'blank_summand': 'summand',
-               'uses_c': 'summand', 'blank_var': 'summation_variable', 'var_pi': 'summation_variable',
+               'creal_lower': 'lower', 'creal_upper': 'upper', 'uses_c': 'summand', 'blank_var': 'summation_variable', 'var_pi': 'summation_variable',
                'var_i': 'summation_variable', 'var_sin': 'summation_variable', 'var_x': 'summation_variable'}
 
 
@@ -377,7 +391,7 @@ def replay_states(states, extra):
             else:
                 bad.append(None)
         elif obs == 'student_err' and c['fa'] == 'none' and c['fs'] in DRIFT_EXPECT and FAULT_FIELD[c['fs']] in c['P'] \
-                and allowed == ['student_err'] and detail != DRIFT_EXPECT[c['fs']]:
+                and 'student_err' in allowed and detail != DRIFT_EXPECT[c['fs']]:
             drift.add('student fault %s raises %s (model of the code says %s)' % (c['fs'], detail, DRIFT_EXPECT[c['fs']]))
     return {'n': n, 'keys': sorted(keys), 'bad': bad, 'sample': sample, 'drift': sorted(drift)}
 
@@ -411,7 +425,8 @@ def replay_histories(states, extra):
                                          'tlc:hist')
                     sig['history'] = list(trail)
                     sig['graders'] = [grader_kwargs(x['aut'], x['cfg'], FIELDS)[0] for x in io['graders']]
-                    sig['class'] = 'call-outcome-differs-from-that-of-the-call-alone'
+                    if i > 0:
+                        sig['class'] = 'call-outcome-differs-from-that-of-the-call-alone'
                     bad.append(sig)
                 else:
                     bad.append(None)
@@ -633,7 +648,7 @@ def rand_case(rng, i):
     elif r < .33:
         for f in rng.choice([['lower'], ['upper'], ['lower', 'upper']]):
             if stu[f]['k'] == 'int':
-                stu[f] = dict(stu[f], k=rng.choice(['qbelow', 'qabove']), salt=rng.randint(0, 3))
+                stu[f] = dict(stu[f], k=rng.choice(['qbelow', 'qabove', 'creal']), salt=rng.randint(0, 5))
     r = rng.random()
     if r < .02:
         aut[rng.choice(['lower', 'upper'])] = dict(aut['lower'], k=rng.choice(['half', 'cplx'])) if aut['lower']['k'] == 'int' else aut['lower']
@@ -652,7 +667,7 @@ def rand_case(rng, i):
     elif r < .10:
         f = rng.choice(['lower', 'upper'])
         if aut[f]['k'] == 'int':
-            aut[f] = dict(aut[f], k=rng.choice(['qbelow', 'qabove']), salt=rng.randint(0, 3))
+            aut[f] = dict(aut[f], k=rng.choice(['qbelow', 'qabove', 'creal', 'creal']), salt=rng.randint(0, 5))
     # ---- boxes
     P = [f for f in FIELDS if rng.random() < .75]
     if svar != var and rng.random() < .8:           # a renamed variable mostly comes with both boxes or with neither
@@ -668,7 +683,7 @@ FN_POOL = ['cos', 'abs', 'sqrt', 'exp', 'sin', 'ln']
 
 def rand_restrictions(rng):
     """which functions a submission may / must use, which author-defined functions exist"""
-    r = {'userfuncs': [], 'forbidden': [], 'required': [], 'listing': 'black'}
+    r = {'userfuncs': [], 'forbidden': [], 'required': [], 'listing': 'black', 'debug': rng.random() < .12}
     if rng.random() < .3:
         r['forbidden'] = sorted(rng.sample(FN_POOL, rng.randint(1, 3)))
         r['listing'] = rng.choice(['black', 'white'])
@@ -882,6 +897,8 @@ def replay(ctx, rec):
         kw['tolerance'] = sig['tolerance']
     if sig.get('user_fact'):
         kw['user_fact'] = True
+    if sig.get('debug'):
+        kw['debug'] = True
     for k in ('blacklist', 'whitelist', 'required_functions', 'user_funcs'):
         if sig.get(k) is not None:
             kw[k] = sig[k]
